@@ -16,6 +16,7 @@ const (
 	dBranch decKind = iota // val 0/1
 	dChoose                // val in [0,n)
 	dConc                  // val = concrete value chosen for a term
+	dSched                 // val = index of the transition fired at a scheduling point
 )
 
 type decision struct {
@@ -26,6 +27,9 @@ type decision struct {
 type job struct {
 	prefix []decision
 	model  map[string]uint64 // a model known to satisfy the prefix (may be nil)
+	// pre[i]: for the scheduling decision at index i of the prefix, the sibling
+	// transitions already explored there (sleep-set partial-order reduction)
+	pre map[int][]sleepEntry
 }
 
 // Violation is a failed assertion or escaped panic, with a replay vector.
@@ -60,6 +64,8 @@ type Stats struct {
 	Samples                  []map[string]interface{}
 	MaxPathDecisions         int
 	FastResolved, ModelSaved int
+	Outcomes                 map[string]int
+	SleepBlocked             int
 }
 
 type Explorer struct {
@@ -216,6 +222,13 @@ func (e *Explorer) collect(ex *Exec, res *PathResult) {
 	for k, v := range ex.covers {
 		st.Covers[k] += v
 	}
+	if ex.outcome != "" && res.Status == "ok" {
+		if st.Outcomes == nil {
+			st.Outcomes = map[string]int{}
+		}
+		st.Outcomes[ex.outcome]++
+	}
+	st.SleepBlocked += ex.sleepBlocked
 	for k, v := range ex.assertLabels {
 		st.AssertLabels[k] += v
 	}
@@ -239,6 +252,11 @@ func (e *Explorer) collect(ex *Exec, res *PathResult) {
 func (ex *Exec) runPath(harness *ssa.Function, j *job) (res *PathResult) {
 	ex.shadow = map[*Object]Value{}
 	ex.prefix = j.prefix
+	ex.preAt = j.pre
+	ex.sleep = nil
+	ex.outcome = ""
+	ex.sleepBlocked = 0
+	ex.nobj = 1 << 20 // run-time object ids are deterministic per path and disjoint from initialisation-time ids
 	ex.decisionsX = ex.decisionsX[:0]
 	ex.inputSeq = map[string]int{}
 	ex.facts = map[uint64][]fact{}
@@ -444,7 +462,7 @@ func (ex *Exec) spawn(alt decision, model map[string]uint64) {
 	p := make([]decision, len(ex.decisionsX)+1)
 	copy(p, ex.decisionsX)
 	p[len(ex.decisionsX)] = alt
-	ex.exp.push(&job{prefix: p, model: model})
+	ex.exp.push(&job{prefix: p, model: model, pre: ex.preAt})
 }
 
 // Branch decides a Boolean term, forking when both outcomes are feasible.
